@@ -26,6 +26,7 @@ type Obligation struct {
 	Goal   Term // must hold under Hyp
 	Script *Script
 	Inline bool // generated inside an inlined callee
+	Ante   *Term // antecedent of an implication-shaped goal (for the vacuity cover)
 	// results
 	Status string // unsat (discharged) | sat | unknown | timeout
 	Solver string
@@ -388,6 +389,18 @@ func (ex *Exec) fieldLoc(base *Loc, i int) *Loc {
 // load reads the value at a location.
 func (ex *Exec) load(st *State, l *Loc) Term {
 	sc := ex.sc
+	if l.kind == "obj" && l.root == nil && strings.HasPrefix(l.ref.S, "|g:") || l.kind == "obj" && l.root == nil && strings.HasPrefix(l.ref.S, "g:") {
+		name := strings.Trim(l.ref.S, "|")
+		name = strings.TrimPrefix(name, "g:")
+		if ex.V.specs.constGlobals[name] {
+			// never reassigned: one fixed value, allocated before this activation started
+			c := sc.declare("gconst:"+name, sc.sortOf(l.typ))
+			if isPointerLike(l.typ) {
+				sc.axiom(and(app(SBool, ">", c, intLit(0)), app(SBool, "<", c, sc.declare("pre:"+compAlloc, SInt))))
+			}
+			return c
+		}
+	}
 	switch l.kind {
 	case "obj":
 		if s, ok := l.typ.Underlying().(*types.Struct); ok && l.root != nil {
